@@ -148,3 +148,14 @@ pub fn addr(v: &J) -> csl::Address {
         _ => csl::EnterpriseAddress::new(net, &gcred(k)).to_address(),
     }
 }
+
+/// a block header built through the constructors (content is irrelevant to the byte-preserving views that embed it)
+pub fn header() -> csl::Header {
+    let vkey = csl::Vkey::new(&sk(1).to_public());
+    let vrf_vkey = csl::VRFVKey::from_bytes(vec![5; 32]).unwrap();
+    let vrf = csl::VRFCert::new(vec![6; 64], vec![7; 80]).unwrap();
+    let opcert = csl::OperationalCert::new(&csl::KESVKey::from_bytes(vec![8; 32]).unwrap(), 1, 2, &csl::Ed25519Signature::from_bytes(vec![9; 64]).unwrap());
+    let hb = csl::HeaderBody::new_headerbody(1, &csl::BigNum::from(2u64), Some(csl::BlockHash::from_bytes(vec![3; 32]).unwrap()), &vkey, &vrf_vkey, &vrf, 100,
+        &csl::BlockHash::from_bytes(vec![4; 32]).unwrap(), &opcert, &csl::ProtocolVersion::new(9, 0));
+    csl::Header::new(&hb, &csl::KESSignature::from_bytes(vec![1; 448]).unwrap())
+}
